@@ -282,6 +282,29 @@ pub fn run(p: &Params, rep: &mut Report) {
         ck.rep.eval(Some(&format!("long{}|{}|{}|{}", la, fmt_w(&b), i, n)));
         ck.rep.inc("long_subject_tuples");
     }
+    // long PATTERNS of very large code points (the code points of the pattern add up to more than 2^32; any
+    // 32-bit accumulator over a window of the subject is past its range), planted away from the start
+    let nbig = p.size(3, 30);
+    for k in 0..nbig {
+        let la = 50_000 + rng.usize(20_000);
+        let lb = *rng.pick(&[21_846usize, 22_000, 30_000, 44_000]);
+        let top = |rng: &mut Rng| 0x2FFFF - rng.below(if k % 2 == 0 { 4 } else { 0x1000 }) as u32;
+        let mut a: Vec<u32> = (0..la).map(|_| top(&mut rng)).collect();
+        let st = 1 + rng.usize(la - lb - 1);
+        let b: Vec<u32> = a[st..st + lb].to_vec();
+        // make sure no earlier window equals the pattern by accident: change the character just before it
+        a[st - 1] = 0x2F000;
+        let c: Vec<u32> = vec![0x63; rng.usize(3)];
+        let i = if rng.chance(1, 2) { 0 } else { rng.below(st as u64 + 1) as i32 };
+        check_tuple(&mut ck, &a, &b, &c, i, lb as i32);
+        // and a pattern that does not occur (last character changed)
+        let mut b2 = b.clone();
+        let l = b2.len() - 1;
+        b2[l] = 0x2F001;
+        check_tuple(&mut ck, &a, &b2, &c, i, 5);
+        ck.rep.eval(Some(&format!("bigpattern{}|{}|{}", la, lb, st)));
+        ck.rep.inc("long_pattern_tuples");
+    }
 }
 
 pub fn replay(kind: &str, text: &str, seed: u64, rep: &mut Report) -> bool {
